@@ -234,6 +234,10 @@ func MavenUniverse(o MavenUOpts) *rapid.Generator[Universe] {
 		u := Universe{System: "maven"}
 		density := rapid.IntRange(1, 4).Draw(t, "density")
 		exHeavy := rapid.IntRange(0, 2).Draw(t, "exheavy") == 0
+		sloppy := rapid.IntRange(0, 3).Draw(t, "sloppy") == 0
+		// mostly forward references (fewer cycles through the root, which the
+		// resolver answers with an error when the versions differ)
+		forward := rapid.IntRange(0, 3).Draw(t, "forward") > 0
 		// first pass: versions, so that most requirements name existing ones
 		vlists := make([][]string, n)
 		for i := 0; i < n; i++ {
@@ -248,8 +252,13 @@ func MavenUniverse(o MavenUOpts) *rapid.Generator[Universe] {
 				used := map[string]bool{}
 				for k := 0; k < nr; k++ {
 					ti := rapid.IntRange(0, n-1).Draw(t, "target")
+					if forward && ti <= i && i < n-1 && rapid.IntRange(0, 4).Draw(t, "back") > 0 {
+						ti = rapid.IntRange(i+1, n-1).Draw(t, "fwdtarget")
+					}
 					r := UReq{Name: names[ti]}
-					missing := rapid.IntRange(0, 39).Draw(t, "missing") == 0
+					// requirements on artifacts or versions that do not exist end most
+					// resolutions in an error: three universes in four have (almost) none
+					missing := rapid.IntRange(0, 39).Draw(t, "missing") == 0 && (sloppy || rapid.IntRange(0, 9).Draw(t, "missing2") == 0)
 					if missing {
 						r.Name = "z:missing"
 					}
@@ -261,7 +270,7 @@ func MavenUniverse(o MavenUOpts) *rapid.Generator[Universe] {
 						} else {
 							r.Req = rapid.SampledFrom(mavenHard).Draw(t, "range")
 						}
-					case rapid.IntRange(0, 19).Draw(t, "stray") == 0:
+					case rapid.IntRange(0, 19).Draw(t, "stray") == 0 && (sloppy || rapid.IntRange(0, 9).Draw(t, "stray2") == 0):
 						r.Req = rapid.SampledFrom(mavenSoft).Draw(t, "soft")
 					default:
 						r.Req = existing
